@@ -790,7 +790,25 @@ func main() {
 	hostileEvery := flag.Int("hostile-every", 5, "every k-th history uses the hostile stream")
 	out := flag.String("out", "", "output JSON file")
 	rep := flag.String("replay", "", "JSON file with cases to replay")
+	smoke := flag.Int("engine-smoke", 0, "run this many real-engine simulations instead (seeds seed*1000+i)")
+	smokeSeed := flag.Uint64("engine-seed", 0, "run the real-engine simulation with exactly this seed")
 	flag.Parse()
+	if *smoke > 0 || *smokeSeed > 0 {
+		var rs []smokeResult
+		if *smokeSeed > 0 {
+			rs = append(rs, engineSmoke(*smokeSeed))
+		}
+		for i := 0; i < *smoke; i++ {
+			rs = append(rs, engineSmoke(*seed*1000+uint64(i)))
+		}
+		data, _ := json.Marshal(rs)
+		if *out == "" {
+			os.Stdout.Write(data)
+		} else if err := os.WriteFile(*out, data, 0o644); err != nil {
+			panic(err)
+		}
+		return
+	}
 
 	var cases []Case
 	if *rep != "" {
